@@ -219,3 +219,23 @@ def run_pinned(res, monitor, spec_dir=SEM, sub="seq"):
         else:
             res.violation("pinned input of known finding %s now fails differently: %s (recorded: %s)" % (fd["dev"], code, fd.get("codes")), dict(fd["pinned"], family="pinned"))
     res.cov["pinned_findings_run"] = len(pins)
+    # a finding may also carry its deviation AS RECORDED: scenarios with a description of what the engine does instead (a monitor that
+    # must ACCEPT them). The engine deviating in ANOTHER way on that input is a different violation and is reported
+    for fd in pins:
+        ar = fd.get("as_recorded")
+        if not ar:
+            continue
+        sp2, tp2 = base + "_%s.scen" % fd["dev"], base + "_%s.trace" % fd["dev"]
+        with open(sp2, "w") as f:
+            for i, sc in enumerate(ar["scenarios"]):
+                f.write(json.dumps(dict(sc, tr=i + 1)) + "\n")
+        rc, out = vlib.sh([vh, sub, "-scen", sp2, "-out", tp2, "-par", "8"], 300)
+        if rc != 0:
+            raise vlib.Inconclusive("driver failed on the recorded deviation of %s:\n%s" % (fd["dev"], out[-2000:]))
+        rej2, _, _ = vlib.validate(spec_dir, ar["monitor"], tp2, set())
+        seen = set()
+        for tr, line, code in rej2:
+            if tr in seen: continue
+            seen.add(tr)
+            res.violation("known finding %s: the engine no longer deviates as recorded (%s): %s" % (fd["dev"], ar.get("what", "")[:80], code), dict(ar["scenarios"][tr - 1], family="pinned"))
+        res.cov["recorded_deviation_scenarios"] = res.cov.get("recorded_deviation_scenarios", 0) + len(ar["scenarios"])
